@@ -77,7 +77,7 @@ let () =
         let mount = String.length smode = 2 && smode.[1] = 'm' in
         let mode = match String.sub smode 0 1 with "g" -> MGraph | "t" -> MTagger | "r" -> MRefPush | _ -> failwith "mode" in
         let root = int_of_string sroot in
-        let c = { c_K = eff_K_gen (z_of_int (int_of_string sk)); c_mode = mode; c_root = nat_of_int root; c_mount = mount;
+        let c = { c_K = eff_K_gen (z_of_int (int_of_string sk)); c_mode = mode; c_root = nat_of_int root; c_mount = mount; c_tagmounted = true;
                   c_cached0 = List.map nat_of_int (ints sc0) } in
         let d0 = List.map nat_of_int (ints sd0) in
         let toks = if strace = "-" then [] else String.split_on_char ',' strace in
